@@ -153,8 +153,34 @@ impl<K: PartialEq + Clone, V: Clone> HashMap<K, V> {
     pub fn is_empty(&self) -> bool {
         self.len() == 0
     }
+}
+
+/// ghost switch for the quick-tier hm_union obligations: with `UNION_ABSTRACT` set, `union` is the
+/// CALLEE CONTRACT of imbl's left-biased union specialised to two one-entry maps with the same
+/// key (result == receiver) and records which map was the receiver and which the argument
+pub static mut UNION_ABSTRACT: bool = false;
+pub static mut UNION_LOG: Option<(isize, isize)> = None;
+pub trait Tag {
+    fn tag(&self) -> isize;
+}
+impl<K: PartialEq + Clone, V: Clone + Tag> HashMap<K, V> {
+    fn first_tag(&self) -> isize {
+        let mut i = 0;
+        while i < 4 {
+            if let Some((_, v)) = &self.e[i] {
+                return v.tag();
+            }
+            i += 1;
+        }
+        -1
+    }
     /// left-biased union
     pub fn union(self, other: Self) -> Self {
+        if unsafe { UNION_ABSTRACT } {
+            assert!(self.len() == 1 && other.len() == 1, "abstract union: one-entry maps only");
+            unsafe { UNION_LOG = Some((self.first_tag(), other.first_tag())) };
+            return self;
+        }
         let mut n = self;
         let mut i = 0;
         while i < 4 {
@@ -385,5 +411,14 @@ impl<'a, T: Copy> Iterator for RestArgsIter<'a, T> {
 impl<'a, T: Copy> RestArgsIter<'a, T> {
     pub fn len(&self) -> usize {
         self.n - self.pos
+    }
+}
+
+impl Tag for SteelVal {
+    fn tag(&self) -> isize {
+        match self {
+            SteelVal::IntV(i) => *i,
+            _ => -1,
+        }
     }
 }
